@@ -113,6 +113,48 @@ def run(check, prog):
     r10_ufunc_protocol(check, prog)
     r11_shared_base_samples(check, prog)
     r12_complex_prior(check, prog)
+    r13_unsupported_operands(check, prog)
+
+
+def r13_unsupported_operands(check, prog):
+    """R13: "combining with unsupported types raises" -- at the operator, not later
+    when the derived prior is first evaluated.  Every operator method of Prior
+    that builds a derived prior itself is evaluated for an operand that is
+    neither a number, a prior nor an array (every isinstance test on it fails):
+    all paths must raise TypeError."""
+    cq = P + 'Prior'
+    c = prog.classes[cq]
+    n = 0
+    for mname, fd in sorted(c.methods.items()):
+        if not (mname.startswith('__') and len(fd.args.args) == 2):
+            continue
+        builds = any(isinstance(x, ast.Call) and
+                     ast.unparse(x.func).endswith('TransformedPrior') and x.args and
+                     ast.unparse(x.args[0]).startswith('operator.')
+                     for x in ast.walk(fd))
+        if not builds:
+            continue
+        n += 1
+        other = sym(fd.args.args[1].arg)
+
+        def decide(t, other=other):
+            if t[0] == 'call' and t[1] == 'isinstance' and len(t[2]) == 2 and \
+                    t[2][0] == other:
+                return False
+            return None
+        it = Interp(prog, max_depth=0, decide=decide)
+        res = it.analyze(cq + '.' + mname)
+        bad = [o for o in res.outcomes if o.kind != 'raise' or
+               'TypeError' not in show(o.value)]
+        check.require(not bad, 'R13-unsupported-operand', 'Prior.' + mname,
+                      'an operand that is neither a number, a prior nor an array is '
+                      'refused with TypeError by the operator itself',
+                      prog.loc(cq, fd),
+                      fail_detail='returns %s for such an operand: the error surfaces '
+                      'only when the derived prior is evaluated (inside a model or a '
+                      'fit)' % (show(bad[0].value)[:100] if bad and bad[0].value
+                                is not None else None))
+    check.floor('operator methods of Prior that build derived priors', n, 4)
 
 
 def r12_complex_prior(check, prog):
@@ -626,9 +668,12 @@ def r6_arithmetic(check, prog, canon):
             # isinstance(value, (Number/Real, Prior))
             if t[0] == 'call' and t[1] == 'isinstance':
                 tgt = show(t[2][1])
-                if 'ndarray' in tgt:
-                    return kind == 'array'
-                return kind in ('number', 'zero', 'one')
+                if kind == 'array':
+                    return 'ndarray' in tgt
+                if kind in ('number', 'zero', 'one'):
+                    return any(k in tgt for k in ('Number', 'Real', 'Prior', 'float',
+                                                  'int', 'Complex'))
+                return False
             if t[0] == 'cmp' and t[1] == '==' and t[2] == v:
                 if t[3] == num(0):
                     return kind == 'zero'
